@@ -174,6 +174,9 @@ let handle toks = match toks with
   | ["run"; "minimize-collapse-brace"; mn; mx; rp; first; limit; clk; atom; b; p; r; a; file0; verdicts; fuel] ->
       let strat = collapse_brace (cfg_of mn mx rp first limit) (clock_of clk) (split_of atom) in
       str_of_result (run strat (verdict_of verdicts) (nat_of_int (int_of_string fuel)) (tc_of b p r a) (bytes_of_hex file0))
+  | ["run"; "minimize-balanced-move"; mn; mx; rp; first; limit; clk; b; p; r; a; file0; verdicts; fuel] ->
+      let strat = pairs_move (cfg_of mn mx rp first limit) (clock_of clk) in
+      str_of_result (run strat (verdict_of verdicts) (nat_of_int (int_of_string fuel)) (tc_of b p r a) (bytes_of_hex file0))
   | ["run"; "replace-properties-by-globals"; mn; mx; rp; first; limit; clk; b; p; r; a; file0; verdicts; fuel] ->
       let strat = replace_properties_concrete (cfg_of mn mx rp first limit) in
       str_of_result (run strat (verdict_of verdicts) (nat_of_int (int_of_string fuel)) (tc_of b p r a) (bytes_of_hex file0))
